@@ -329,7 +329,7 @@ func (bs *baseServer) Handshake(transportName string, ctx *types.HttpContext) (*
 		headers, req := args[0].(*utils.ParameterBag), args[1].(*types.HttpContext)
 		// only the handshake response (the request that carries no sid) is the
 		// initial one; `ctx` is the handshake request itself and never has a sid
-		if !req.Query().Has("sid") {
+		if req.Query().Peek("sid") == "" {
 			if cookie := bs.opts.Cookie(); cookie != nil {
 				// the cookie carries this session's id; the configured cookie is
 				// shared by all sessions, so set the value on a copy
